@@ -232,6 +232,25 @@ CLAIMED = {
              "batch future.",
         technique="Lean 4 model of batch resolution (T-diff) + trace acceptor (trace validation on the simulator)",
     ),
+    "C09": dict(
+        text="Machine-checked Lean 4 proofs over executable models of the record codec: canonical varint/CRC-32C "
+             "definitions and both implementations' variants; the Kafka v0/v1/v2 format definition with generic "
+             "round-trip and header well-formedness theorems for every lawful codec and attribute combination; both "
+             "builders proved equal to the format encoder on the records they accept, both readers proved to return "
+             "the stored records (hence cross-decoding); both splitters proved to cut any mixed-format concatenation "
+             "with a trailing partial batch; size accounting and the batch-size rule proved per implementation. All 31 "
+             "theorems are full strength; the mixed-magic splitter defect was repaired (fix commit) and its defective "
+             "variant is kept with a kernel-checked counterexample. On every run the models are tied to the pure-Python "
+             "codec and to a Cython codec rebuilt from the .pyx by differential comparison of builders, readers and "
+             "splitters, and the layout constants/CRC table are re-extracted and re-checked by `decide`.",
+        design="0.3/C09",
+        note="trusted: Lean kernel; the transcription of the Kafka formats (cross-checked against real broker bytes); "
+             "compression codecs as a parameter with decompress(compress x) = x; C code (crc32c.c, zlib crc32, byte "
+             "swaps) tied only by T-diff; readers modelled as records-or-failure (failure kinds are C10); UTF-8 "
+             "header-key encoding; harness, extractor and driver (thorough tier injects two known divergences and must "
+             "see them).",
+        technique="Lean 4 proof (induction / invariants) + T-extract of layouts + two-implementation differential tie",
+    ),
 }
 
 NOT_YET = {}
